@@ -8,6 +8,7 @@ import (
 	"math"
 	"reflect"
 	"regexp"
+	"sort"
 	"strconv"
 	"strings"
 
@@ -595,7 +596,16 @@ func (s *state) walkFromNode(node *parse.FromNode) error {
 		return err
 	}
 	macros := tree.Macros()
-	for name, alias := range node.Imports {
+	// Imports is a map: visit it in a fixed order, so that which of two
+	// macros imported under one name wins, and which of two missing macros is
+	// reported, does not change from one execution to the next.
+	names := make([]string, 0, len(node.Imports))
+	for name := range node.Imports {
+		names = append(names, name)
+	}
+	sort.Strings(names)
+	for _, name := range names {
+		alias := node.Imports[name]
 		def, ok := macros[name]
 		if !ok {
 			return errors.New("undefined macro " + name)
